@@ -41,10 +41,22 @@ def build_harness(race=False, name="driver"):
     if key in _harness_built:
         return _harness_built[key]
     os.makedirs(BUILD, exist_ok=True)
-    shutil.copyfile(os.path.join(REPO, "go.sum"), os.path.join(HARNESS, "go.sum"))
-    out = os.path.join(BUILD, name + ("-race" if race else ""))
+    hdir = HARNESS
+    suffix = ""
+    if os.path.realpath(REPO) != "/repo":
+        # VERIF_REPO points somewhere else (a scratch worktree with a candidate change): build a private copy of the
+        # harness whose go.mod replaces the module with that tree, so that /repo itself stays untouched
+        suffix = "-" + hashlib.sha1(os.path.realpath(REPO).encode()).hexdigest()[:8]
+        hdir = os.path.join(BUILD, "harness" + suffix)
+        if os.path.exists(hdir):
+            shutil.rmtree(hdir)
+        shutil.copytree(HARNESS, hdir)
+        gm = open(os.path.join(hdir, "go.mod")).read().replace("=> /repo", "=> " + os.path.realpath(REPO))
+        open(os.path.join(hdir, "go.mod"), "w").write(gm)
+    shutil.copyfile(os.path.join(REPO, "go.sum"), os.path.join(hdir, "go.sum"))
+    out = os.path.join(BUILD, name + suffix + ("-race" if race else ""))
     cmd = ["go", "build", "-tags", "verif"] + (["-race"] if race else []) + ["-o", out, "./cmd/" + name]
-    rc, txt = sh(cmd, cwd=HARNESS, env=GOENV, timeout=900)
+    rc, txt = sh(cmd, cwd=hdir, env=GOENV, timeout=900)
     if rc != 0:
         _harness_built[key] = (None, txt)
     else:
@@ -88,7 +100,20 @@ def theorem_names(prop_file):
     """Names of the theorems stated in Props/<file>.lean (the obligations)."""
     src = open(prop_file).read()
     src = strip_comments(src)
-    return re.findall(r"^\s*(?:protected\s+|private\s+)?theorem\s+([A-Za-z_][A-Za-z0-9_.'!?]*)", src, re.M)
+    names, stack = [], []
+    for line in src.split("\n"):
+        m = re.match(r"^\s*namespace\s+([A-Za-z_][A-Za-z0-9_.']*)", line)
+        if m:
+            stack.append(m.group(1)); continue
+        m = re.match(r"^\s*end\s+([A-Za-z_][A-Za-z0-9_.']*)\s*$", line)
+        if m and stack and stack[-1] == m.group(1):
+            stack.pop(); continue
+        # private theorems are local helpers (their names are mangled); obligations are the public ones
+        m = re.match(r"^\s*(?:@\[[^\]]*\]\s*)?(?:protected\s+)?theorem\s+([A-Za-z_][A-Za-z0-9_.'!?]*)", line)
+        if m:
+            n = m.group(1)
+            names.append(n[6:] if n.startswith("_root_.") else ".".join(stack + [n]))
+    return names
 
 
 def strip_comments(src):
